@@ -2,6 +2,7 @@ package props
 
 import (
 	"fmt"
+	"strconv"
 	"sort"
 	"strings"
 	"testing"
@@ -148,6 +149,58 @@ func c06Failing(t *rapid.T) kit.Argv {
 	)...)
 }
 
+// c06Sparse: the keyspace itself in a sparse, shrink-prone table: a few keys from a wide name space,
+// create/delete cycles, then keyspace commands (the after-step invariants compare KEYS, DBSIZE and SCAN).
+func c06Sparse(t *rapid.T) []kit.Argv {
+	name := func() string { return "w" + strconv.Itoa(rapid.IntRange(0, 199).Draw(t, "w")) }
+	var out []kit.Argv
+	var names []string
+	for i := rapid.IntRange(2, 7).Draw(t, "nk"); i > 0; i-- {
+		k := name()
+		names = append(names, k)
+		out = append(out, kit.A(pick(t, "mk", []string{"SET", k, "v"}, []string{"RPUSH", k, "e"}, []string{"SADD", k, "m"}, []string{"HSET", k, "f", "v"})...))
+	}
+	for i := rapid.IntRange(0, 25).Draw(t, "cycles"); i > 0; i-- {
+		out = append(out, kit.A("SET", "churn", "1"), kit.A(pick(t, "rm", "DEL", "UNLINK", "GETDEL"), "churn"))
+	}
+	for i := rapid.IntRange(1, 4).Draw(t, "after"); i > 0; i-- {
+		out = append(out, kit.A(pick(t, "sparseop", []string{"KEYS", "w*"}, []string{"DBSIZE"}, []string{"RANDOMKEY"}, []string{"DEL", pick(t, "dk", names...)}, []string{"RENAME", pick(t, "rk", names...), name()},
+			[]string{"EXISTS", names[0], names[len(names)-1]}, []string{"COPY", names[0], name()}, []string{"TYPE", names[0]})...))
+	}
+	return out
+}
+
+// c06Alias: after a command that copies or moves a whole value (COPY, RENAME, STORE forms), both names
+// are modified in place alternately: shared storage between the two keys shows as cross-talk in the dump.
+func c06Alias(t *rapid.T) []kit.Argv {
+	ty := pick(t, "aty", allTypes...)
+	src := typedKey(ty, rapid.IntRange(0, 1).Draw(t, "avar"))
+	dst := pick(t, "adst", "a", "b", "c")
+	out := []kit.Argv{kit.A("COPY", src, dst, "REPLACE")}
+	if rapid.IntRange(0, 3).Draw(t, "viaRename") == 0 {
+		out = append(out, kit.A("RENAME", dst, "moved"), kit.A("COPY", "moved", dst))
+	}
+	mut := func(k string) kit.Argv {
+		switch ty {
+		case model.TString:
+			return kit.A(pick(t, "ms", []string{"APPEND", k, pick(t, "ap", "X", "YY", "ZZZ")}, []string{"SETRANGE", k, "1", "q"}, []string{"SETBIT", k, "3", "1"}, []string{"APPEND", k, "W"}, []string{"BITFIELD", k, "SET", "u8", "0", "65"})...)
+		case model.TList:
+			return kit.A(pick(t, "ml", []string{"RPUSH", k, "n1"}, []string{"LSET", k, "0", "chg"}, []string{"LPOP", k}, []string{"LINSERT", k, "AFTER", "1", "ins"}, []string{"LPUSH", k, "h"})...)
+		case model.THash:
+			return kit.A(pick(t, "mh", []string{"HSET", k, "f", "chg"}, []string{"HSET", k, "newf", "1"}, []string{"HDEL", k, "g"}, []string{"HINCRBY", k, "cnt", "2"})...)
+		}
+		return kit.A(pick(t, "mz", []string{"SADD", k, "added"}, []string{"SREM", k, "m"}, []string{"SADD", k, "x1", "x2"}, []string{"SMOVE", k, "kz1", "1"})...)
+	}
+	for i := rapid.IntRange(2, 5).Draw(t, "muts"); i > 0; i-- {
+		if i%2 == 0 {
+			out = append(out, mut(dst))
+		} else {
+			out = append(out, mut(src))
+		}
+	}
+	return out
+}
+
 func c06Gen(t *rapid.T) SeqCase {
 	var steps []kit.Argv
 	for _, s := range setupTyped() {
@@ -155,7 +208,11 @@ func c06Gen(t *rapid.T) SeqCase {
 	}
 	n := rapid.IntRange(6, 30).Draw(t, "steps")
 	for i := 0; i < n; i++ {
-		switch weighted(t, "kind", []int{9, 4, 5, 3}) {
+		switch weighted(t, "kind", []int{9, 4, 5, 3, 1, 2}) {
+		case 5:
+			steps = append(steps, c06Alias(t)...)
+		case 4:
+			steps = append(steps, c06Sparse(t)...)
 		case 0:
 			steps = append(steps, c06Matrix(t))
 		case 1:
